@@ -15,7 +15,7 @@ type C12 struct{}
 
 func (*C12) ID() string     { return "C12" }
 func (*C12) Level() string  { return "fault_enumeration" }
-func (*C12) Engine() string { return "PROC" }
+func (*C12) Engine() string { return "PROC+CONC" }
 func (*C12) Rule() string {
 	return "enumeration of the termination matrix, one world process per cell: entry point (Panic, Fatal, their Context variants, LogAttrs/Logit/Log at Panic and Fatal, the four package-level functions) x flags {none, LnoInterrupt, Linterruptalways, both} x process mode {production, testing (argv0 ends in .test plus a -test.* argument)} x logger level {admits, does not admit} x format {json, colored, logfmt}; around the cell a seeded prefix and suffix of calls of every other severity and entry point (negative cases); the error-class destination is a real file read by the parent after the process is gone, events are streamed so that nothing after the crash point is lost; crash point = process death by os.Exit or panic at the tail of the call; distinct = cell index; non-trivial = every cell"
 }
@@ -161,27 +161,63 @@ func (p *C12) Gen(seed uint64, i int, tier string) *scen.Scenario {
 			cell.Args = append(cell.Args, scen.Arg{K: "attr", Key: fmt.Sprintf("a%d", k), Items: []scen.Arg{{K: "i", I: int64(k)}}})
 		}
 	}
+	if c.variant%4 == 3 && !isPkg {
+		// the terminating call is made while calls of another goroutine on another logger are in flight:
+		// it must still terminate (or not) by itself, and the other calls must neither panic nor exit
+		sc.Engine = "PROC+CONC"
+		sc.Note += " concurrent"
+		sc.Sched = scen.SchedCfg{StayPermille: r.Range(300, 800)}
+		sc.Setup = append(sc.Setup, scen.Op{Op: "new_root", R: 2, Name: "bg", Named: true, Opts: []scen.Op{{Kind: "writer", W: 4, WK: "plain"}, {Kind: "errwriter", W: 4, WK: "plain"}, {Kind: "level", Lvl: model.Always}}})
+		bg := scen.Task{ID: 2}
+		for k := r.Range(2, 6); k > 0; k-- {
+			tk++
+			sev := scen.Pick(r, []int{model.Error, model.Warn, model.Info, model.Debug, model.Always, model.OK})
+			bg.Ops = append(bg.Ops, scen.Op{Op: "log", L: 2, Entry: "LogAttrs", Lvl: sev, Msg: "o" + tok(tk), Tok: tok(tk), Args: []scen.Arg{
+				{K: "attr", Key: "y1", Y: true, Items: []scen.Arg{{K: "i", I: int64(k)}}}, {K: "attr", Key: "y2", Y: true, Items: []scen.Arg{{K: "i", I: int64(k)}}}}})
+		}
+		sc.Tasks = []scen.Task{{ID: 1, Ops: []scen.Op{cell}}, bg}
+		for k := r.Intn(4); k > 0; k-- {
+			sc.Faults = append(sc.Faults, scen.Fault{W: 4, Attempt: r.Intn(6), Kind: "stall", N: r.Range(1, 4)})
+		}
+		return sc
+	}
 	sc.Setup = append(sc.Setup, cell)
 	others(r.Range(1, 3))
 	return sc
 }
 
 func c12Expect(sc *scen.Scenario) (cellIdx int, cell *scen.Op, terminate bool, admitted model.Decision, level int) {
+	cellIdx = -1
 	for i := range sc.Setup {
 		if sc.Setup[i].Probe {
 			cellIdx, cell = i, &sc.Setup[i]
 		}
 	}
+	upto := cellIdx
+	if cell == nil {
+		// the concurrent variant: the cell is the only op of task 1 (cellIdx stays -1)
+		for ti := range sc.Tasks {
+			for i := range sc.Tasks[ti].Ops {
+				if sc.Tasks[ti].Ops[i].Probe {
+					cell = &sc.Tasks[ti].Ops[i]
+				}
+			}
+		}
+		upto = len(sc.Setup)
+	}
 	if cell == nil {
 		return -1, nil, false, model.Unknown, 0
 	}
 	level = -1
-	for i := 0; i < cellIdx; i++ {
+	for i := 0; i < upto; i++ {
 		op := &sc.Setup[i]
 		switch op.Op {
 		case "pkg_set_level":
 			level = op.Lvl
 		case "new_root":
+			if op.R != cell.L {
+				continue
+			}
 			for _, o := range op.Opts {
 				if o.Kind == "level" {
 					level = o.Lvl
@@ -234,6 +270,22 @@ func (p *C12) WellFormed(sc *scen.Scenario) bool {
 			return false
 		}
 	}
+	for ti := range sc.Tasks {
+		for i := range sc.Tasks[ti].Ops {
+			op := &sc.Tasks[ti].Ops[i]
+			if op.Op != "log" || op.Tok == "" {
+				return false
+			}
+			if op.Probe {
+				n++
+				if sc.Tasks[ti].ID != 1 || i != 0 || len(sc.Tasks[ti].Ops) != 1 || !strings.Contains(op.Msg, op.Tok) {
+					return false
+				}
+			} else if op.L != 2 || op.Lvl == model.Panic || op.Lvl == model.Fatal {
+				return false
+			}
+		}
+	}
 	return n == 1 && (sc.World.Mode == "production" || sc.World.Mode == "testing") && sc.World.Stream && sc.World.FileDir != ""
 }
 
@@ -253,11 +305,19 @@ func (p *C12) Check(sc *scen.Scenario, run *orch.Run, env *orch.Env) []orch.Viol
 	sevName := model.LevelName(sev)
 	ops := indexOps(run)
 	where := fmt.Sprintf("entry=%s mode=%s flags=%s", cell.Entry, sc.World.Mode, strings.Join(sc.World.Flags, "+"))
+	if len(sc.Tasks) > 0 {
+		where += " concurrent"
+	}
 	ctx := fmt.Sprintf("%s at %s on a logger at %s, %s process, flags %v", cell.Entry, sevName, model.LevelName(level), sc.World.Mode, sc.World.Flags)
 	died := worldDied(run)
 	file := run.Files["w1.log"]
 
 	// negative cases: no other call ever panics or exits
+	cellKey := opKey("setup", 0, cellIdx+1)
+	cellOp := cellIdx + 1
+	if cellIdx < 0 {
+		cellKey, cellOp = opKey("task", 1, 1), 1
+	}
 	deathAt := -1
 	for i := range sc.Setup {
 		o := ops[opKey("setup", 0, i+1)]
@@ -271,15 +331,34 @@ func (p *C12) Check(sc *scen.Scenario, run *orch.Run, env *orch.Env) []orch.Viol
 			deathAt = i
 		}
 	}
-	if died && deathAt != cellIdx {
+	cellUnfinished := deathAt == cellIdx
+	if cellIdx < 0 {
+		// concurrent variant: the other task's calls may be parked in flight when the process exits, that is
+		// not their doing; what counts is whether the cell itself was still running
+		co := ops[cellKey]
+		cellUnfinished = deathAt < 0 && co != nil && co.Started && !co.Ended && co.Panic == nil
+		for _, t := range sc.Tasks {
+			for i := range t.Ops {
+				if t.Ops[i].Probe {
+					continue
+				}
+				if o := ops[opKey("task", t.ID, i+1)]; o != nil && o.Panic != nil {
+					add("C12.other-panic", "entry="+t.Ops[i].Entry+" concurrent", "%s at severity %s (another goroutine, another logger) panicked: %s", t.Ops[i].Entry, model.LevelName(t.Ops[i].Lvl), o.Panic.S)
+				}
+			}
+		}
+	}
+	if died && !cellUnfinished {
 		what := "before the first op"
 		if deathAt >= 0 {
 			what = fmt.Sprintf("during setup[%d] %s %s", deathAt, sc.Setup[deathAt].Op, sc.Setup[deathAt].Entry)
+		} else if cellIdx < 0 {
+			what = "while the Panic/Fatal cell was not running (during a call of the other goroutine, or after all calls)"
 		}
 		add("C12.other-exit", "world", "the process ended (exit=%d) %s, not in the Panic/Fatal cell; stderr=%.200q", run.ExitCode, what, lastLines(run.Stderr, 200))
 		return dedupe(out)
 	}
-	o := ops[opKey("setup", 0, cellIdx+1)]
+	o := ops[cellKey]
 	if o == nil {
 		return dedupe(out)
 	}
@@ -295,9 +374,6 @@ func (p *C12) Check(sc *scen.Scenario, run *orch.Run, env *orch.Env) []orch.Viol
 		if bytes.Contains(line, []byte(cell.Tok)) && bytes.HasSuffix(line, []byte("\n")) {
 			completeInFile = true
 		}
-	}
-	if cell.Args == nil && sc.Setup[cellIdx].Msg != "" && strings.Contains(string(file), "\x1b[") {
-		// colored multi-line not generated; a single complete line is expected
 	}
 	switch {
 	case admitted == model.Admit:
@@ -336,8 +412,18 @@ func (p *C12) Check(sc *scen.Scenario, run *orch.Run, env *orch.Env) []orch.Viol
 			}
 			// nothing after the record
 			last := run.Events[len(run.Events)-1]
+			if cellIdx < 0 {
+				// concurrent variant: what the other goroutine did meanwhile is not the cell's business;
+				// the last thing the cell's own goroutine did must be the record's write
+				for k := len(run.Events) - 1; k >= 0; k-- {
+					if run.Events[k].T == 1 {
+						last = run.Events[k]
+						break
+					}
+				}
+			}
 			// (with a failing member in the device the last write may be the diagnostic about it)
-			if !(last.K == "write" && last.Op == cellIdx+1) {
+			if !(last.K == "write" && last.Op == cellOp && (cellIdx >= 0 || last.T == 1)) {
 				add("C12.after-record", where, "%s: the last event before the exit is %s (op %d), expected the record's write", ctx, last.K, last.Op)
 			}
 		}
